@@ -407,7 +407,24 @@ fn gen_params_case(t: &mut Tape) -> E2Case {
     let nparams_max = 2; // vars + tail
     let _ = nparams_max;
     let nontrivial = (nv_from + nv_into >= 1 && labels.iter().any(|l| l == "update" || l == "return")) || nv_from + nv_into >= 3;
-    E2Case { harness_src: h, derives: if bare_parent { vec![derive_input.clone(), "#[from_ref(D)]\n#[into_existing(D)]\npub struct P { pub pm: i64 }".to_string()] } else { vec![derive_input.clone()] }, run_src: r, key: derive_input, labels, nontrivial, facts }
+    // the type of the bare #[parent] member needs the conversions the generated bodies call: (try_)from_ref for S's From kinds,
+    // (try_)into_existing for S's Into / IntoExisting kinds, fallible where S's are
+    let p_derive = {
+        let mut a = String::new();
+        if cells[1][FO] || cells[1][FR] {
+            a.push_str("#[try_from_ref(D, E)]\n");
+        } else {
+            a.push_str("#[from_ref(D)]\n");
+        }
+        if cells[0][OI] || cells[0][RI] || cells[0][OIE] || cells[0][RIE] || !(cells[1][OI] || cells[1][RI] || cells[1][OIE] || cells[1][RIE]) {
+            a.push_str("#[into_existing(D)]\n");
+        }
+        if cells[1][OI] || cells[1][RI] || cells[1][OIE] || cells[1][RIE] {
+            a.push_str("#[try_into_existing(D, E)]\n");
+        }
+        format!("{}pub struct P {{ pub pm: i64 }}", a)
+    };
+    E2Case { harness_src: h, derives: if bare_parent { vec![derive_input.clone(), p_derive] } else { vec![derive_input.clone()] }, run_src: r, key: derive_input, labels, nontrivial, facts }
 }
 
 impl E2Part for Params {
